@@ -158,13 +158,22 @@ def run_textfuzz(res, prop, tier, work):
     os.unlink(out)
     jobs, recs = [], []
     for ci, case in enumerate(cases):
-        for c in (1, 2):
+        for c in (0, 1, 2):
             hs = case['canon'][c]
             if not hs:
                 continue
             if len(hs) == 1 and not hs[0]['pre'] and not hs[0]['post'] and (not hs[0]['del'] or not hs[0]['ins']):
                 continue            # a creation / deletion (or the context-free top-of-file shape), not a Modify patch
             plain = [{'pre': h['pre'], 'del': h['del'], 'ins': h['ins'], 'post': h['post'], 'os': h['os'], 'ns': h['ns']} for h in hs]
+            body0 = b''.join(render.hunk_text(h, 0) for h in hs)
+            # the reverse direction (the series entry says -R): onto B as it is and onto B shifted by one line; placement
+            # then goes by the new side's line numbers, also for hunks with an empty side (context 0)
+            for F in (list(case['B']), ['a'] + list(case['B'])):
+                for lim in ((0, 2) if c else (0,)):
+                    jobs.append({'id': len(jobs), 'a': render.file_bytes(F, 0).hex(), 'patch': (b'--- a/f\n+++ b/f\n' + body0).hex(), 'strip': 1, 'reverse': True, 'fuzz': lim})
+                    recs.append({'F': F, 'hs': plain, 'lim': lim, 'dir': 'R'})
+            if c == 0:
+                continue
             # perturbations of A: corrupt one outer context line of one hunk / prepend a line / both
             A = list(case['A'])
             variants = []
@@ -206,7 +215,7 @@ def run_textfuzz(res, prop, tier, work):
                 if len(rep) != len(rec['hs']):
                     continue
             n += 1
-            f.write(json.dumps({'id': n, 'F': rec['F'], 'hs': rec['hs'], 'dir': 'F', 'lim': rec['lim'], 'rep': rep, 'out': outl, 'why': 'text-level fuzz'}) + '\n')
+            f.write(json.dumps({'id': n, 'F': rec['F'], 'hs': rec['hs'], 'dir': rec.get('dir', 'F'), 'lim': rec['lim'], 'rep': rep, 'out': outl, 'why': 'text-level fuzz'}) + '\n')
     res.cov['parts']['textfuzz'] = {'diff_cases': len(cases), 'observations': n}
     res.cov['evaluations'] += n
     if OWN[prop]['verdict']:
